@@ -282,7 +282,7 @@ func (l layout) slackOffsets() []int {
 			used[f.Off+i] = true
 		}
 	}
-	o := []int{}
+	o := []int{2, 3} // (the two header bytes behind the function code belong to no field either)
 	for i := 8; i < 64; i++ {
 		if !used[i] {
 			o = append(o, i)
